@@ -351,4 +351,63 @@ theorem Created.shape {files : List (Bytes × Content)} {a : Archive} {infos : L
   · unfold Archive.toBytes
     rw [hhead, hn]
 
+/-! ## `create` always returns; refusals -/
+
+theorem create_ne_hang (files : List (Bytes × Content)) (hlen : ∀ f ∈ files, f.2.len < 2 ^ 63) : create files ≠ .hang := by
+  unfold create
+  have hs : ∀ c ∈ (Str.sortCI (fun f : Bytes × Content => Path.getFilename f.1) files).map (·.2), c.len < 2 ^ 63 := by
+    intro c hc
+    obtain ⟨f, hf, rfl⟩ := List.mem_map.mp hc
+    exact hlen f ((Str.sortCI_perm _ files).mem_iff.mp hf)
+  have := intakeAll_ne_hang _ hs
+  simp only
+  split
+  · rename_i e; exact absurd e this
+  · simp
+  · split; · simp
+    split; · simp
+    split; · simp
+    split; · simp
+    split <;> simp
+
+/-- what is not an archive is an error (never a hang) -/
+theorem create_err_of_not_ok (files : List (Bytes × Content)) (hlen : ∀ f ∈ files, f.2.len < 2 ^ 63)
+    (h : ∀ a, create files ≠ .ok a) : create files = .err := by
+  cases hc : create files with
+  | ok a => exact absurd hc (h a)
+  | err => rfl
+  | hang => exact absurd hc (create_ne_hang files hlen)
+
+theorem mem_sorted {files : List (Bytes × Content)} {f : Bytes × Content} : f ∈ sorted files ↔ f ∈ files :=
+  (Str.sortCI_perm _ files).mem_iff
+
+/-- in a created archive every source passed intake -/
+theorem Created.intake_each {files : List (Bytes × Content)} {a : Archive} {infos : List Info} {idx : Bytes}
+    (h : Created files a infos idx) : ∀ f ∈ files, ∃ i ∈ infos, intake f.2 = .ok i := by
+  intro f hf
+  have hf' : f.2 ∈ (sorted files).map (·.2) := List.mem_map.mpr ⟨f, mem_sorted.mpr hf, rfl⟩
+  obtain ⟨k, hk, hkc⟩ := List.getElem_of_mem hf'
+  have hlen := intakeAll_length _ _ h.1
+  obtain ⟨c, hc1, hc2⟩ := intakeAll_mem _ _ h.1 k (by omega)
+  rw [List.getElem?_eq_getElem hk, hkc] at hc1
+  injection hc1 with hc1
+  subst hc1
+  exact ⟨_, List.getElem_mem _, hc2⟩
+
+theorem allSameFmt_iff (infos : List Info) : allSameFmt infos = true ↔ ∀ i ∈ infos, ∀ j ∈ infos, i.fmt = j.fmt := by
+  cases infos with
+  | nil => simp [allSameFmt]
+  | cons x rest =>
+    simp only [allSameFmt, List.all_eq_true, beq_iff_eq]
+    constructor
+    · intro h i hi j hj
+      have hx : ∀ y ∈ x :: rest, y.fmt = x.fmt := by
+        intro y hy
+        rcases List.mem_cons.mp hy with rfl | hy
+        · rfl
+        · exact h y hy
+      rw [hx i hi, hx j hj]
+    · intro h j hj
+      exact h j (by simp [hj]) x (by simp)
+
 end Op2.Clm
